@@ -44,6 +44,12 @@ int main(int argc, char** argv) {
         gen::Spend S = gen::make_spend(type, sh, 1, 1, false);
         emit(type + " " + kind + " script", S.fund, S.tx, F_STANDARD);
     }
+    // a witness script and a tapscript leaf longer than 256 bytes (hashed in one piece by the signature hash)
+    for (std::string type : {"p2wsh-checksig", "p2tr-script"}) {
+        gen::Shape sh; sh.nin = gen::is_taproot_type(type) ? 1 : 2; sh.pos = sh.nin - 1; sh.fund_vout = 1; sh.nout = 2; sh.pad = 300;
+        gen::Spend S = gen::make_spend(type, sh, 1, 1, false);
+        emit(type + " long script", S.fund, S.tx, F_STANDARD);
+    }
     // bare legacy outputs with hand-made scriptSig / scriptPubKey pairs: sections of zero, one and several operations
     {
         struct B { const char* name; const char* sig; const char* spk; };
